@@ -1,17 +1,20 @@
 (* SchedTeam.v -- C09: a scheduled region laid out for nt threads and executed by a TEAM of k threads.
 
    amgcl sizes the per-thread tables of its two hand-written level schedulers with
-   omp_get_max_threads() at set-up (gauss_seidel.hpp:213, ilu_solve.hpp:285) and later runs
-       #pragma omp parallel { tid = omp_get_thread_num(); for (task : tasks[tid]) { rows; barrier } }
-   (gauss_seidel.hpp:344-376, ilu_solve.hpp:399-424).  OpenMP does not promise that the team of that
-   region has omp_get_max_threads()-at-set-up members: the region may be entered from inside an
-   enclosing active parallel region (nested parallelism off: team of 1), under a thread limit
-   (OMP_THREAD_LIMIT, teams thread_limit: team of k), with OMP_DYNAMIC, or after
-   omp_set_num_threads(k).
+   omp_get_max_threads() at set-up (gauss_seidel.hpp:224, ilu_solve.hpp:296) and later runs a
+   "#pragma omp parallel" region over them (gauss_seidel.hpp:357-397, ilu_solve.hpp:412-447).
+   OpenMP does not promise that the team of that region has omp_get_max_threads()-at-set-up
+   members: the region may be entered from inside an enclosing active parallel region (nested
+   parallelism off: team of 1), under a thread limit (OMP_THREAD_LIMIT, teams thread_limit: team
+   of k), with OMP_DYNAMIC, or after omp_set_num_threads(k).
 
-   [team_trunc k]  : the code as it EXISTS: thread t < k runs tasks[t]; nobody runs tasks[t], t >= k.
-   [team_cyclic k] : the repaired code: thread t of a team of k runs, level by level,
-                     tasks[t], tasks[t+k], tasks[t+2k], ... and then waits at the barrier.
+   [team_cyclic k] : the code as it is since /repo 9f8f0d9: thread t of a team of k runs, level
+                     by level,  for (tid = t; tid < nthreads; tid += k) tasks[tid][lev]  and then
+                     waits at the barrier (the constructors fill the tables the same way).
+   [team_trunc k]  : HISTORICAL, the code before 9f8f0d9:  tid = omp_get_thread_num();
+                     for (task : tasks[tid]) { rows; barrier }  -- thread t < k runs tasks[t],
+                     nobody runs tasks[t] for t >= k (finding C09-level-schedule-reduced-team;
+                     for k > nt the old code read tasks[tid] out of bounds: not modelled).
    Both act on "level -> thread -> X" for any X (row numbers: [rsched]; steps: the regions of
    Sched.v), so that they commute with [map (map (map stp))]. *)
 From Coq Require Import Permutation ZifyBool.
@@ -218,7 +221,7 @@ Theorem team_cyclic_valid rds n f k (sch : rsched) : 1 <= k ->
 Proof. intros Hk Hv. eapply sched_valid_same_levels; [apply team_cyclic_same_levels; exact Hk|exact Hv]. Qed.
 
 (* ================================================================================ *)
-(* 5. the repaired execution: for EVERY team size k >= 1 (smaller, equal or larger than
+(* 5. the execution since 9f8f0d9: for EVERY team size k >= 1 (smaller, equal or larger than
       the nt of the set-up) and every interleaving the result is the serial sweep    *)
 Section CyclicSound.
 Variable V : Type.
@@ -240,7 +243,7 @@ Qed.
 End CyclicSound.
 
 (* ================================================================================ *)
-(* 6. the code as it exists, executed by a team of k: deterministic (the remaining
+(* 6. HISTORICAL: the code before 9f8f0d9, executed by a team of k: deterministic (the remaining
       tasks of a level are still pairwise independent), rows of the missing threads
       are never executed: their cells keep the input value                           *)
 Section TruncSem.
@@ -352,7 +355,7 @@ Proof.
   unfold gs_schedule in Hr. apply (schedule_of_levels_width _ _ _ Hr).
 Qed.
 
-(* the repaired execution, any set-up count nt >= 1, any team k >= 1 *)
+(* the execution since 9f8f0d9, any set-up count nt >= 1, any team k >= 1 *)
 Theorem sptr_solve_cyclic_any_team lower (A : crs) (D : vec) nt k l (x : vec) :
   1 <= nt -> 1 <= k -> strict_tri lower A ->
   InterleaveLevels (team_cyclic k (sptr_par_levels lower A D nt)) l ->
@@ -374,7 +377,7 @@ Proof.
            (fun i c H => or_intror H) (nrows A) f (gs_schedule f A nt) k Hk (gs_schedule_valid f A nt Hnt) l Hil x).
 Qed.
 
-(* the existing code under a reduced team is deterministic: the in-order run is THE result *)
+(* HISTORICAL: the code before 9f8f0d9 under a reduced team is deterministic: the in-order run is THE result *)
 Theorem sptr_team_trunc_deterministic lower (A : crs) (D : vec) nt k l (x : vec) :
   1 <= nt -> strict_tri lower A ->
   InterleaveLevels (team_trunc k (sptr_par_levels lower A D nt)) l ->
@@ -402,7 +405,7 @@ Proof.
 Qed.
 End Instances.
 
-(* (ring) the repaired level-scheduled ILU solve = serial_solve for every team size *)
+(* (ring) the level-scheduled ILU solve (since 9f8f0d9) = serial_solve for every team size *)
 Section CyclicRing.
 Variable S : Scalar.
 Hypothesis Srt : Sring S.
@@ -424,7 +427,7 @@ Qed.
 End CyclicRing.
 
 (* ================================================================================ *)
-(* 8. refutation: the code as it exists, team smaller than the set-up count          *)
+(* 8. HISTORICAL refutation: the code before 9f8f0d9, team smaller than the set-up count *)
 From Coq Require Import QArith Qcanon.
 From Amgcl Require Import QcInst.
 Local Close Scope Qc_scope.
@@ -487,7 +490,7 @@ Proof.
   rewrite E in Hk. revert Hk. vm_compute. intro Hk. discriminate.
 Qed.
 
-(* the same inputs under the repaired execution: every team size, every interleaving *)
+(* the same inputs under the execution since 9f8f0d9: every team size, every interleaving *)
 Example team_witnesses_repaired k l1 l2 : 1 <= k ->
   InterleaveLevels (team_cyclic k (sptr_par_levels true team_L team_D 4)) l1 ->
   InterleaveLevels (team_cyclic k (gs_par_levels true team_A 4 team_f)) l2 ->
